@@ -184,3 +184,9 @@ Theorem C12_kernels_generated : forall c x,
   K_Pool_Withdraw (pool_of c) x = {| G_Pool_Total := Reward.cm_total c; G_Pool_Spent := Reward.cm_spent c; G_Pool_Withdrawn := Reward.cm_withdrawn c + x |}.
 Proof. intros. split; [reflexivity|]. split; [apply gen_CheckBalance|]. repeat split. Qed.
 Print Assumptions C12_kernels_generated.
+
+(* the time window test of a grant IS Campaign.CheckTS, generated from x/reward/types/campaign.go on every run *)
+Theorem C12_window_generated : forall c now,
+  K_Campaign_CheckTS c now = negb ((G_Campaign_EndTS c <? now) || (now <? G_Campaign_StartTS c)).
+Proof. intros. unfold K_Campaign_CheckTS. destruct (G_Campaign_EndTS c <? now); [reflexivity|]. destruct (now <? G_Campaign_StartTS c); reflexivity. Qed.
+Print Assumptions C12_window_generated.
